@@ -333,6 +333,7 @@ def run(ctx):
     resolve_rule(ctx)
     order_rule(ctx, syn)
     extagree_rule(ctx, syn)
+    moved_rule(ctx)
     from props.c11 import name_rule
     name_rule(ctx, rid="C05.NAME")   # to_file(name) / from_file(name): the manifest or store file is written under the name given
     mir_rules(ctx)
@@ -758,3 +759,37 @@ def extagree_rule(ctx, syn, rid="C05.EXTAGREE"):
     r.hit("json-test", sample={"writer": {"case_insensitive": w[1], "how": w[2]}, "reader": {"case_insensitive": rd[1], "how": rd[2]}})
     if w[0] != rd[0] or w[1] != rd[1]:
         ctx.report(r, "writer-reader-differ", "the writer of a stand-off resource decides `STAM JSON` by %s (%s), the reader by %s (%s): for a name on which the two disagree (NOTES.JSON) the file is written in one format and read as the other - the JSON source becomes the text" % (w[2], "ignoring case" if w[1] else "case-sensitive", rd[2], "ignoring case" if rd[1] else "case-sensitive"), w[4].file, w[3])
+
+
+
+# ---------------------------------------------------------------------- MOVED
+def moved_rule(ctx, rid="C05.MOVED"):
+    """a stand-off resource or dataset is written only while it is marked changed (DIRTY / CLEAN), and it is read back
+    relative to the directory of the store file.  set_filename() can move the store to another directory: the
+    stand-off members then have to be marked changed, or the next save writes a store file whose @include members are
+    not there.  MIR: AnnotationStore::set_filename, which updates the working directory, reaches mark_changed on a
+    TextResource and on an AnnotationDataSet."""
+    import mirq
+    r = ctx.rule(rid, "AnnotationStore::set_filename, which can move the store to another directory, marks the stand-off resources and datasets as changed so that they are written there too")
+    prog = mirq.Program(ctx.facts.mir())
+    bs = prog.find_bodies(r"AnnotationStore as file::AssociatedFile>::set_filename$")
+    if len(bs) != 1:
+        ctx.anchor_missing(r, "<AnnotationStore as AssociatedFile>::set_filename")
+        return
+    b = bs[0]
+    ctx.functions_analysed.add(b.id)
+    upd = [bi for bi, t in b.calls() if (mirq.callee_of(t)[0] or "").endswith("AnnotationStore::update_config") and not b.blocks[bi].get("cleanup")]
+    if not upd:
+        ctx.anchor_missing(r, "the update of the working directory (update_config) in set_filename")
+        return
+    marks = {}
+    for bi, t in b.calls():
+        if (mirq.callee_of(t)[0] or "").endswith("ChangeMarker::mark_changed") and not b.blocks[bi].get("cleanup"):
+            at = (t.get("at") or [""])[0]
+            for kind in ("resources::TextResource", "annotationdataset::AnnotationDataSet"):
+                if kind in at:
+                    marks.setdefault(kind, bi)
+    r.hit(b.id, sample={"workdir_update": upd, "marks_changed": sorted(marks)})
+    for kind in ("resources::TextResource", "annotationdataset::AnnotationDataSet"):
+        if kind not in marks:
+            ctx.report(r, "unmarked:%s" % kind.split("::")[-1], "set_filename updates the working directory of the store but never marks a %s as changed: after save() in one directory, set_filename() to another and save() again, the stand-off %s files are not written next to the new store file, which then does not load (its @include members are missing)" % (kind.split("::")[-1], "resource" if "Resource" in kind else "dataset"), b.file, b.line)
